@@ -23,6 +23,8 @@ func c17(c *Ctx) {
 		one := `^\(1 == ` + psField + `\)$`
 		c.noPrematureTest("dbheader/page-size-normalised-before-judged", "litefs.readSQLiteDatabaseHeader", `(`+psField+`|\.PageSize)`, gs(G(one, true), G(one, false)),
 			"no test of the page-size field other than 'is it the encoding 1' is made before the encoding 1 has been turned into 65536", "a 64 KiB-page database would be taken for an invalid file at start-up, and an invalid database file is wiped together with its journal, WAL and LTX files", one)
+		c.Guarded("dbheader/block-cache-sized-only-with-pages", "litefs.(*DB).initDatabaseFile", c.P.PlainCalls("litefs.pageChksumBlock"), gs(GP("(0 < litefs.(*DB).PageN(p0))", true), GP("(0 == litefs.(*DB).PageN(p0))", false)), 1,
+			"start-up computes the block of the last page only when the database header declares pages", "F57: pageChksumBlock asserts a non-zero page number; a journal can restore a page 1 whose in-header page count is 0")
 		c.Expect("dbheader/page-size-one-means-64k", joinS(c.fieldStores("litefs.readSQLiteDatabaseHeader", "litefs.sqliteDatabaseHeader.PageSize")), pat("encoding/binary.(bigEndian).Uint16(encoding/binary.BigEndian, @@[16:]);65536")+"|"+pat("65536;encoding/binary.(bigEndian).Uint16(encoding/binary.BigEndian, @@[16:])"), "the page size stored is the field, or 65536 for the encoding 1", "")
 	}
 	c.pageLoopsComplete("complete", "rollbackJournalSegment")
